@@ -386,6 +386,62 @@ func c01(c *Ctx) {
 		}
 		c01skipWhitelistMulti(c, as, through, false)
 	}
+
+	c.R.Rule("R1.8", "the template-name annotation is authoritative: RenderComposedResourceMetadata stamps it on every path that names the resource, and it is stamped after the from-XR patches", 3,
+		"both composers re-associate live composed resources with templates / desired resources by this annotation only: a stale or overwritten value files the resource under another name, which deletes and re-creates it (or leaks and duplicates it) on every reconcile")
+	if rm := c.fn(pkgComposite, "RenderComposedResourceMetadata"); rm != nil {
+		stamp := calls(rm, xp+pkgComposite+".SetCompositionResourceName")
+		if len(stamp) == 0 {
+			c.R.Unknown(load.FuncName(rm)+": stamp", c.pos(rm.Pos()), "SetCompositionResourceName is not called")
+		} else {
+			// the only way past the stamp is an empty name
+			var noName []cfgx.Edge
+			for _, cf := range findCmps(rm, true, func(x, y ssa.Value) bool {
+				s, ok := cfgx.ConstString(y)
+				return ok && s == "" && flow.Root(x) == ssa.Value(rm.Params[2])
+			}) {
+				noName = append(noName, cf.Holds...)
+			}
+			through := map[*ssa.BasicBlock]bool{}
+			for _, st := range stamp {
+				through[st.Block()] = true
+				c.R.Check(cfgx.CallArgs(st)[1] == ssa.Value(rm.Params[2]) && flow.Root(underIface(cfgx.CallArgs(st)[0])) == ssa.Value(rm.Params[0]), site(st)+" stamps-name", c.pos(st.Pos()), "stamps the supplied name on the rendered resource", "the annotation stamped is not the supplied name on the supplied resource")
+			}
+			seen := cfgx.ReachFromEntry(rm, through, noName)
+			bad := false
+			var at ssa.Instruction = stamp[0]
+			for b := range seen {
+				if through[b] {
+					continue
+				}
+				if r, ok := b.Instrs[len(b.Instrs)-1].(*ssa.Return); ok && classifyErr(cfgx.ReturnValue(r, 0)) != "nonnil" || ok && isWrapOfCall(cfgx.ReturnValue(r, 0)) {
+					bad = true
+					at = r
+				}
+			}
+			c.R.Check(!bad && len(noName) > 0, load.FuncName(rm)+": stamped unless unnamed", c.pos(at.Pos()), "every successful render passes the stamp, except for an empty name", "a named resource can be rendered without (re)stamping crossplane.io/composition-resource-name: an existing value wins")
+		}
+	}
+	ptRenderOrder(c, pt)
+}
+
+// ptRenderOrder: in the P&T composer the metadata of a composed resource (the
+// template-name annotation the associator keys on, the controller reference) is
+// rendered after the from-XR patches, so that no patch can overwrite it.
+func ptRenderOrder(c *Ctx, pt *ssa.Function) {
+	if pt == nil {
+		return
+	}
+	md := calls(pt, xp+pkgComposite+".RenderComposedResourceMetadata")
+	ps := calls(pt, xp+pkgComposite+".RenderFromCompositePatches")
+	if len(md) == 0 || len(ps) == 0 {
+		c.R.Unknown(load.FuncName(pt)+": render steps", c.pos(pt.Pos()), "expected RenderFromCompositePatches and RenderComposedResourceMetadata")
+	}
+	for _, m := range md {
+		for _, p := range ps {
+			c.R.Check(!cfgx.ReachesInIteration(m, p), site(m)+" after-patches", c.pos(m.Pos()), "metadata (annotation, controller reference) is rendered after the from-XR patches", "a from-XR patch runs after the metadata was rendered: it can overwrite the template-name annotation or the controller reference")
+		}
+	}
 }
 
 func lastReturnBlock(fn *ssa.Function) *ssa.BasicBlock {
@@ -500,4 +556,18 @@ func edgeSet(es []cfgx.Edge) map[cfgx.Edge]bool {
 		m[e] = true
 	}
 	return m
+}
+
+// isWrapOfCall: errors.Wrap(f(...), msg) — nil when the wrapped call succeeds.
+func isWrapOfCall(v ssa.Value) bool {
+	c, ok := v.(*ssa.Call)
+	if !ok {
+		return false
+	}
+	n := cfgx.CalleeName(c)
+	if !strings.HasSuffix(n, "errors.Wrap") && !strings.HasSuffix(n, "errors.Wrapf") {
+		return false
+	}
+	_, isCall := c.Call.Args[0].(*ssa.Call)
+	return isCall
 }
